@@ -75,3 +75,6 @@ pub fn object_summaries(map: &Beatmap) -> Vec<ManiaObjectSummary> {
 pub fn column(x: f32, total_columns: f32) -> usize {
     ManiaObject::column(x, total_columns)
 }
+
+/// Isolated runs of the three osu!→mania pattern generators and the per-object conversion trace.
+pub use super::convert::verif_gen as gen;
